@@ -84,6 +84,7 @@ func (i *interpreter) runMain(fn *ssa.Function) {
 	i.cur = main
 	i.pendingAbort = nil
 	i.shadows = nil
+	i.mutexes = nil
 	call(i, nil, token.NoPos, fn, nil)
 	// the harness returned: remaining threads are abandoned (like process exit)
 	i.killThreads()
